@@ -119,6 +119,8 @@ def run(ck):
         nmol = rng.choice([1, 2, 2, 3, 4]) if h else 2
         if h in (1, 2):
             nmol = 2 + h          # every run has a coupled trimer and tetramer: excitons delocalised over unequal sites
+        if h == 3:
+            nmol = 1              # ... and a single molecule (the monomer route of the calculator)
         energies = [12000.0 + rng.randint(-250, 250) for _ in range(nmol)]
         dips = [[rng.randint(-8, 8) / 4.0 for _ in range(3)] for _ in range(nmol)]
         for d in dips:
@@ -315,4 +317,71 @@ def run(ck):
                     ck.case(("purity", h, variant), nontrivial=True, kind="purity:" + variant)
                 except Exception as e:
                     ck.fail("raises:purity:%s" % variant, "spectrum calculation (%s) raised %r" % (variant, e), inp)
+    # ---- the spectrum calculated from the dynamics of the optical coherences (calculate(from_dynamics=True)) ------------------
+    from quantarhei.qm import ReducedDensityMatrixPropagator
+    for h in range(ck.n(2, 10)):
+        nmol = 2 + h % 2
+        energies = [12000.0 + rng.randint(-200, 200) for _ in range(nmol)]
+        dips = [[rng.randint(-8, 8) / 4.0 for _ in range(3)] for _ in range(nmol)]
+        for d in dips:
+            if sum(abs(x) for x in d) == 0:
+                d[1] = 1.0
+        poss = [[10.0 * k, 0.0, 0.0] for k in range(nmol)]
+        couplings = [[0.0] * nmol for _ in range(nmol)]
+        for i in range(nmol):
+            for j in range(i + 1, nmol):
+                couplings[i][j] = couplings[j][i] = rng.choice([40.0, 100.0, -150.0])
+        reorgs = [rng.choice([20.0, 30.0, 50.0]) for _ in range(nmol)]
+        cortimes = [rng.choice([60.0, 100.0]) for _ in range(nmol)]
+        inp = {"route": "from_dynamics", "sites": nmol, "energies": energies, "dipoles": dips, "couplings": couplings, "reorg": reorgs}
+
+        def dyn(scale=1.0, Q=None, alt=False):
+            agg = make(nmol, energies, dips, poss, couplings, reorgs, cortimes, scale=scale, Q=Q)
+            RT, ham = agg.get_RelaxationTensor(ta, relaxation_theory="standard_Redfield")
+            prop = ReducedDensityMatrixPropagator(ta, ham, RT)
+            c_ = AbsSpectrumCalculator(ta, system=agg)
+            with energy_units("1/cm"):
+                c_.bootstrap(rwa=12000.0, prop=prop)
+            sp_ = c_.calculate(raw=True, from_dynamics=True, alt=alt)
+            return agg, ham, RT, prop, c_, numpy.array(sp_.data).copy()
+        try:
+            agg, ham, RT, prop, c_, d1 = dyn()
+            H0 = numpy.array(agg.get_Hamiltonian().data).copy(); D0 = numpy.array(agg.get_TransitionDipoleMoment().data).copy()
+            R0 = numpy.array(RT.data).copy()
+            d1b = numpy.array(c_.calculate(raw=True, from_dynamics=True).data)
+            _, _, _, _, _, d_alt = dyn(alt=True)
+            _, _, _, _, _, d_sc = dyn(scale=2.0)
+            _, _, _, _, _, d_rot = dyn(Q=rot())
+        except Exception as e:
+            ck.fail("raises:from_dynamics", "calculate(from_dynamics=True) raised %r" % (e,), inp)
+            continue
+        sc = float(numpy.abs(d1).max()) or 1.0
+        ck.case(("dyn", h, str(energies)), nontrivial=True, kind="from-dynamics", sites=nmol)
+        for nm_, arr, tol_ in (("repeated call", d1b, 1e-12), ("the two implementations (alt)", d_alt, 1e-9), ("dipole scaling", d_sc / 4.0, 1e-9),
+                               ("common rotation", d_rot, 1e-9)):
+            dev = float(numpy.abs(arr - d1).max()) / sc
+            ck.resid("from dynamics: " + nm_, dev)
+            if dev > tol_:
+                ck.fail("from-dynamics:" + nm_.split()[0], "spectrum from dynamics: %s changes the spectrum" % nm_, inp, dev, tol_)
+        if numpy.abs(numpy.array(agg.get_Hamiltonian().data) - H0).max() > 1e-9 * numpy.abs(H0).max() or \
+                numpy.abs(numpy.array(agg.get_TransitionDipoleMoment().data) - D0).max() > 1e-12 or numpy.abs(numpy.array(RT.data) - R0).max() > 1e-9 * numpy.abs(R0).max():
+            ck.fail("purity:from-dynamics", "calculating the spectrum from dynamics changed the Hamiltonian, the dipole operator or the tensor", inp)
+        # the samples are the Fourier sums (selected by the same index map) of the signal field the route propagates
+        if ks is not None:
+            try:
+                with energy_units("int"):
+                    rhoeq = agg.get_thermal_ReducedDensityMatrix()
+                    at = absmod._spect_from_dyn_single(ta, agg.get_Hamiltonian(), agg.get_TransitionDipoleMoment(), prop, rhoeq, False)
+                n_ext = numpy.arange(M)
+                a_ext = numpy.zeros(M, dtype=complex)
+                a_ext[:Nt] = at
+                a_ext[0] = at[0].real; a_ext[Nt - 1] = at[Nt - 1].real
+                a_ext[Nt:] = numpy.conj(at[1:Nt - 1][::-1])
+                ref = numpy.array([dt * numpy.real(numpy.sum(a_ext * numpy.exp(-2j * numpy.pi * k * n_ext / M))) for k in ks])
+                dev = float(numpy.abs(ref - d1).max()) / (float(numpy.abs(ref).max()) or 1.0)
+                ck.resid("from dynamics: |spectrum - Fourier sum selected by the index map| / max", dev)
+                if dev > 1e-9:
+                    ck.disagree("from-dynamics samples are not the Fourier sums selected by the model's index map", inp, dev, 1e-9)
+            except Exception as e:
+                ck.fail("raises:from_dynamics:signal", "recomputing the signal field raised %r" % (e,), inp)
     return ck.finish()
